@@ -396,7 +396,7 @@ static const scpi_command_t c16_cmds[] = { { .pattern = "VAL?", .callback = h_va
 static vh_ctx_t * g_ctx;
 static void ctx_done(void) { if (g_ctx) { vh_ctx_free(g_ctx); g_ctx = NULL; } }
 
-#define HELPER_MODE (USE_CUSTOM_DTOSTRE ? M_DTOSTRE : M_PRINTF)
+#define HELPER_MODE (VH_LIB_DTOSTRE ? M_DTOSTRE : M_PRINTF)
 
 static void check_results(double v, float f, int have_f, int record) {
     const char * out; size_t n; char * comma; char td[80], tf[80]; valref_t vr;
@@ -744,13 +744,13 @@ int main(int argc, char ** argv) {
     int i, rc;
     P10[0] = 1; for (i = 1; i < 39; i++) P10[i] = P10[i - 1] * 10;
     for (i = 0; i < K__N; i++) if (!kname[i]) { fprintf(stderr, "C16 harness: counter %d has no name\n", i); return 2; }
-    g_salt = (uint64_t) (USE_CUSTOM_DTOSTRE ? 0x5bd1e995 : 0) + (uint64_t) (VH_ASAN ? 0x27d4eb2f165667c5ULL : 0);
+    g_salt = (uint64_t) (VH_LIB_DTOSTRE ? 0x5bd1e995 : 0) + (uint64_t) (VH_ASAN ? 0x27d4eb2f165667c5ULL : 0);
     vh_require("class.random_bits"); vh_require("class.pow2_and_integer_type_limits"); vh_require("class.pow10"); vh_require("class.pow10_neighbour"); vh_require("class.carry_nines");
     vh_require("class.zero_digit"); vh_require("class.boundary_double"); vh_require("class.boundary_float"); vh_require("class.exact_tie");
     vh_require("class.subnormal"); vh_require("value.subnormal"); vh_require("class.zero"); vh_require("value.nonfinite"); vh_require("class.small_int");
     vh_require("dtostre.equal_to_rounded"); vh_require("dtostre.fixed_notation"); vh_require("dtostre.exponent_notation"); vh_require("calls.p01"); vh_require("calls.p15");
     vh_require("value.float_checked"); vh_require("result.calls"); vh_require("records.written");
-#if !USE_CUSTOM_DTOSTRE
+#if !VH_LIB_DTOSTRE
     vh_require("printf.match_fast"); vh_require("printf.fixed_notation"); vh_require("printf.exponent_notation"); vh_require("printf.exact_tie");
     vh_require("printf.double"); vh_require("printf.float"); vh_require("printf.result");
 #else
